@@ -205,6 +205,11 @@ def keyLe : Key → Key → Bool
   | _ :: _, [] => false
   | a :: as, b :: bs => if a = b then keyLe as bs else (!a && b)
 
+/-- `key.cmp` on two keys of equal length: -1 / 0 / 1 by the first bit that differs -/
+def keyCmp : Key → Key → Int
+  | a :: as, b :: bs => if a = b then keyCmp as bs else if !a && b then -1 else 1
+  | _, _ => 0
+
 def sortOps (ops : List Op) : List Op := ops.mergeSort fun a b => keyLe a.key b.key
 
 /-- outcome of a commit on the real object: the new tree, an error return, or a Go panic -/
